@@ -157,7 +157,7 @@ Section Repeat.
     destruct (take_blob T hc (rs_table T st) [leaf]) as [b t'] eqn:Etb.
     pose proof (C01Build.take_blob_fst T hc _ _ _ _ Etb) as Hb1.
     assert (clock_ok teqb w1) as Hk by apply Hinv.
-    destruct (InvProofs.take_blob_ok T teqb hc _ _ _ _ _ Hk Htbl Etb) as [Hb Ht'].
+    destruct (InvProofs.take_blob_ok T teqb hc teqb_spec _ _ _ _ _ Htbl Etb) as [Hb Ht'].
     destruct b as [|[p a] [|x b']]; cbn [map fst] in Hb1; try discriminate. injection Hb1 as ->.
     assert (state_ok w1 a) as Ha by (apply (Hb leaf a); left; reflexivity).
     unfold handle_leaf. cbn [current_tickets]. rewrite Hw.
@@ -322,7 +322,7 @@ Section Repeat.
     destruct (take_blob T hc (rs_table T st) (n_targets n)) as [b t'] eqn:Etb.
     pose proof (C01Build.take_blob_fst T hc _ _ _ _ Etb) as Hfst.
     assert (clock_ok teqb wc) as Hk by apply Hinv.
-    destruct (InvProofs.take_blob_ok T teqb hc _ _ _ _ _ Hk Htbl Etb) as [Hb _].
+    destruct (InvProofs.take_blob_ok T teqb hc teqb_spec _ _ _ _ _ Htbl Etb) as [Hb _].
     fold wc.
     destruct (read_history T teqb hr wc (n_rule n)) as [h|] eqn:Erh; [|discriminate].
     destruct (all_some (map (received T (rs_leaf_sent T st) (rs_node_sent T st)) (n_source_indices n)))
@@ -604,7 +604,7 @@ Section Repeat.
     destruct (take_blob T hc (rs_table T st) (n_targets n)) as [b t'] eqn:Etb.
     pose proof (C01Build.take_blob_fst T hc _ _ _ _ Etb) as Hfst.
     assert (clock_ok teqb w2) as Hk by apply Hinv.
-    destruct (InvProofs.take_blob_ok T teqb hc _ _ _ _ _ Hk Htbl Etb) as [Hb Ht'].
+    destruct (InvProofs.take_blob_ok T teqb hc teqb_spec _ _ _ _ _ Htbl Etb) as [Hb Ht'].
     assert (read_history T teqb hr w2 (n_rule n) = Some h) as ->.
     { unfold read_history. rewrite Hhs, Hh. reflexivity. }
     destruct (all_some (map (received T (rs_leaf_sent T st) (rs_node_sent T st)) (n_source_indices n)))
